@@ -141,6 +141,30 @@ def main(tier, seed, replay=None):
             cases.append((cid, items, aligned, out, {'cfg': cfg}))
             info[cid] = (text, cfg, sent)
     rep.notes['skipped'] = skipped
+    # the programs the repository's own tests parse (DESIGN 4.5): no
+    # derivation, so only the clauses the real parser decides
+    corpus = gen.suite_corpus(rep)
+    cres = impl.pmap(_minify, corpus, chunk=50)
+    for text, r in zip(corpus, cres):
+        if r[0] != 'ok':
+            continue
+        for (cfg, drop), o in zip(CONFIGS, r[2]):
+            rep.count('evaluations')
+            if o[0] == 'print-exc':
+                rep.violation('C02 printer-raised cfg=%s' % cfg,
+                              'minify_print raised %s on %r' % (o[1], text),
+                              {'text': text, 'cfg': cfg})
+            elif o[0] == 'reparse-exc':
+                rep.violation('C02 reparse rejected cfg=%s' % cfg,
+                              'minified %r of %r does not parse: %s'
+                              % (o[1], text, o[2]),
+                              {'text': text, 'cfg': cfg, 'output': o[1]})
+            elif o[2] is not None:
+                rep.violation('C02 reparse tree-differs cfg=%s at=%s'
+                              % (cfg, o[2][0].split('/')[-1]),
+                              'minified %r of %r reads as a different program: '
+                              '%r' % (o[1], text, o[2]),
+                              {'text': text, 'cfg': cfg, 'output': o[1]})
     fuse = printing.fuse_verdicts(pairs, rep)
     # coverage of the property's quantifier: adjacencies without separator
     adj = {}
